@@ -45,8 +45,8 @@ ASSUMPTIONS = [
     "stopping inequalities are the ones documented in the two _solve methods, recomputed from convergence_history and the options",
 ]
 FLOORS = {
-    "quick": {"mass_balance": 1500, "distance_is_cost_of_flux": 1500, "status_honest": 400, "fault:not_converged": 2000, "fault:last_valid_iterate": 2000, "fault:depth:backend": 1000, "monitoring_active": 1500},
-    "thorough": {"mass_balance": 12000, "distance_is_cost_of_flux": 12000, "status_honest": 3800, "fault:not_converged": 16000, "fault:last_valid_iterate": 16000, "fault:depth:backend": 8000, "monitoring_active": 12000},
+    "quick": {"mass_balance": 1500, "distance_is_cost_of_flux": 1500, "status_honest": 400, "fault:not_converged": 2000, "fault:last_valid_iterate": 2000, "fault:depth:backend": 1000, "fault:depth:after_update": 1000, "monitoring_active": 1500},
+    "thorough": {"mass_balance": 12000, "distance_is_cost_of_flux": 12000, "status_honest": 3800, "fault:not_converged": 16000, "fault:last_valid_iterate": 16000, "fault:depth:backend": 8000, "fault:depth:after_update": 8000, "monitoring_active": 12000},
 }
 SHARD_TIMEOUT = {"quick": 1500, "thorough": 6000}
 
@@ -206,7 +206,8 @@ def run_shard(spec, R):
                 sub["pressure_finite_and_pinned"] = True
             bad = [k for k, v in sub.items() if not v]
             R.check(not bad, "auxiliary_outputs_consistent", lambda: {**det, "failed": bad, "pinned_pressure": float(pflat[pin]) if pflat.size else None,
-                                                                      "max_pressure": float(np.max(np.abs(pflat))) if pflat.size else None}, group=grp)
+                                                                      "max_pressure": float(np.max(np.abs(pflat))) if pflat.size else None},
+                    key=aa_key if (bad == ["pressure_finite_and_pinned"] and aa_key and "multilevel" in aa_key) else None, group=grp)
             R.count("monitoring_active", 1 if getattr(cap, "monitoring", False) else 0)
             return flux
 
@@ -243,7 +244,9 @@ def run_shard(spec, R):
             w2 = wass.solver_class(darsia, c["method"])(darsia.generate_grid(m1), weight_img, opt2)
             ok, rs = R.guarded("solve_status", lambda: w2(m1, m2))
             if ok:
-                R.check(isinstance(rs, tuple) and float(rs[0]) == float(dist) and bool(rs[1]) == conv, "return_status_path_agrees", {**desc, "got": str(rs)[:80]})
+                rel = 1e-7 if (backend in ("amg", "cg") and M.num_cells > 99) else 0.0  # multilevel set-up is randomised (pyamg)
+                R.check(isinstance(rs, tuple) and abs(float(rs[0]) - float(dist)) <= rel * abs(float(dist)) and (bool(rs[1]) == conv or rel > 0), "return_status_path_agrees",
+                        {**desc, "got": str(rs)[:80], "info_path": [float(dist), conv]})
         if swallowed or flux is None:
             # the clean run itself stopped on an internal failure: no fault enumeration on top
             R.skip("fault_enumeration:clean_run_already_failed")
@@ -252,7 +255,7 @@ def run_shard(spec, R):
         # ---------------------------------------------------- fault enumeration
         hist = info["convergence_history"]["distance"]
         init_flux = None
-        for k, deep in [(kk, dd) for kk in range(0, min(n_iter_run, K) + 1) for dd in (False, True)]:
+        for k, deep in [(kk, dd) for kk in range(0, min(n_iter_run, K) + 1) for dd in (False, True, "post")]:
             if k >= n_iter_run and n_iter_run >= num_iter:
                 break  # iteration k does not exist
             if k > n_iter_run - 1 and conv:
@@ -264,13 +267,16 @@ def run_shard(spec, R):
             ok, outf = R.guarded("solve_under_fault", lambda: wf(m1, m2))
             if not ok:
                 continue
-            raised = [x for x in capf.linear_calls if x["raised"]]
+            raised = [x for x in capf.linear_calls if x["raised"]] if deep != "post" else ([1] if capf.post_fired else [])
             if not raised:
                 R.skip("fault_position_not_reached")
                 continue
             R.event("run", case=c["id"], fault=k, linear_calls=len(capf.linear_calls), swallowed=capf.swallowed, converged=bool(capf.solve_result[2]["converged"]))
-            label = f"fault@{k}" + ("/backend" if deep else "/boundary")
-            R.count("fault:depth:" + ("backend" if deep else "boundary"))
+            label = f"fault@{k}" + {False: "/boundary", True: "/backend", "post": "/after_update"}[deep]
+            R.count("fault:depth:" + {False: "boundary", True: "backend", "post": "after_update"}[deep])
+            desc = {**desc, "fault_site": label.split("/")[1]}
+            post_key = "C04:iterate_advanced_before_failure" if deep == "post" else None
+            multilevel_iterative = backend in ("amg", "cg") and M.num_cells > 99
             R.check(any("InjectedFault" in s for s in capf.swallowed) or not getattr(capf, "monitoring", False), "fault:observed_swallowed", {**desc, "k": k, "swallowed": capf.swallowed})
             df, solf, infof = capf.solve_result
             R.check(not bool(infof["converged"]), "fault:not_converged", {**desc, "k": k, "converged": bool(infof["converged"]), "number_iterations": infof["number_iterations"]},
@@ -286,10 +292,14 @@ def run_shard(spec, R):
                     w0, cap0, _ = build()
                     rhs0 = np.concatenate([np.zeros(M.num_faces), w0.mass_matrix_cells.dot(M.flat(mass_diff)), np.zeros(1)])
                     init_flux = np.asarray(w0.linear_solve(w0.darcy_init.copy(), rhs0.copy(), np.zeros_like(rhs0))[0][w0.flux_slice], float)
-                R.check(np.array_equal(fl, init_flux), "fault:last_valid_iterate", {**desc, "k": 0, "maxdiff": float(np.max(np.abs(fl - init_flux))) if fl.size else 0.0}, group=grp)
+                # iterative back-ends on > 100 unknowns build a multilevel hierarchy whose set-up draws random test
+                # vectors (pyamg): two runs agree to solver tolerance only; everything else is bitwise
+                same = np.array_equal(fl, init_flux) if not multilevel_iterative else bool(np.allclose(fl, init_flux, rtol=0, atol=1e-7 * max(float(np.max(np.abs(init_flux))), 1e-300)))
+                R.check(same, "fault:last_valid_iterate", {**desc, "k": 0, "maxdiff": float(np.max(np.abs(fl - init_flux))) if fl.size else 0.0}, key=post_key, group=grp)
             else:
                 ref = hist[k - 1]
-                R.check(abs(float(df) - ref) <= 1e-12 * max(abs(ref), 1e-300), "fault:last_valid_iterate", {**desc, "k": k, "distance": float(df), "clean_history": ref}, group=grp)
+                R.check(abs(float(df) - ref) <= (1e-7 if multilevel_iterative else 1e-12) * max(abs(ref), 1e-300), "fault:last_valid_iterate",
+                        {**desc, "k": k, "distance": float(df), "clean_history": ref}, key=post_key, group=grp)
             R.sig([c["grid"], c["mass"], c["method"], c["l1"], c["mob"], formulation, backend, c["aa"], c["weight"], c["tight"], k, deep], nontriv)
 
 
